@@ -444,7 +444,7 @@ def run(c):
     # numeric oracle streams
     st = ST.Streams(c)
     kinds = ['affine', 'bilinear', 'quadratic']
-    budget = 75 if quick else 700
+    budget = 75 if quick else 560
     rounds = 1 if quick else 6
     tstart = time.time()
     order = list(st.zoo)
@@ -501,7 +501,7 @@ def run(c):
     c.log('numeric streams done')
 
     # (M) + spec cross-check + (V): one batch through the Lean driver
-    parts = [m_prepare(c, 12 if quick else 150), spec_prepare(c, 10 if quick else 120), v_prepare(c, 10 if quick else 160, st.zoo)]
+    parts = [m_prepare(c, 12 if quick else 150), spec_prepare(c, 10 if quick else 120), v_prepare(c, 10 if quick else 130, st.zoo)]
     c.log('lean requests prepared')
     ans = lean(c, [r for reqs, _ in parts for r in reqs])
     pos = 0
